@@ -38,7 +38,7 @@ typedef struct pair1_sock pair1_sock;
 static void pair1_pipe_send_cb(void *);
 static void pair1_pipe_recv_cb(void *);
 static void pair1_pipe_fini(void *);
-static void pair1_send_sched(pair1_sock *);
+static void pair1_send_sched(pair1_sock *, pair1_pipe *);
 static void pair1_pipe_send(pair1_pipe *, nni_msg *);
 
 // pair1_sock is our per-socket protocol private structure.
@@ -298,7 +298,7 @@ pair1_pipe_start(void *arg)
 	s->rd_ready = false;
 	nni_mtx_unlock(&s->mtx);
 
-	pair1_send_sched(s);
+	pair1_send_sched(s, p);
 
 	// And the pipe read of course.
 	nni_pipe_recv(p->pipe, &p->aio_recv);
@@ -363,6 +363,15 @@ pair1_pipe_recv_cb(void *arg)
 
 	nni_mtx_lock(&s->mtx);
 
+	// A receive completion can race with pipe_stop; a detached pipe
+	// must not mark the socket ready on behalf of its successor.
+	if (s->p != p) {
+		nni_mtx_unlock(&s->mtx);
+		nni_aio_set_msg(&p->aio_recv, NULL);
+		nni_msg_free(msg);
+		return;
+	}
+
 	// if anyone is blocking, then the lmq will be empty, and
 	// we should deliver it there.
 	if ((a = nni_list_first(&s->raq)) != NULL) {
@@ -387,16 +396,17 @@ pair1_pipe_recv_cb(void *arg)
 }
 
 static void
-pair1_send_sched(pair1_sock *s)
+pair1_send_sched(pair1_sock *s, pair1_pipe *p)
 {
-	pair1_pipe *p;
 	nni_msg    *m;
 	nni_aio    *a = NULL;
 	size_t      l = 0;
 
 	nni_mtx_lock(&s->mtx);
 
-	if ((p = s->p) == NULL) {
+	// A send completion can race with pipe_stop; it must not schedule
+	// a send on behalf of a pipe that is no longer the attached one.
+	if (s->p != p) {
 		nni_mtx_unlock(&s->mtx);
 		return;
 	}
@@ -449,7 +459,7 @@ pair1_pipe_send_cb(void *arg)
 		return;
 	}
 
-	pair1_send_sched(p->pair);
+	pair1_send_sched(p->pair, p);
 }
 
 static void
